@@ -93,6 +93,7 @@ class Interp:
         self.kslots = self.cfg.get('kslots', 3)
         self.depth = 0
         self.frames = {}
+        self._keyctx = None
 
     # ------------------------------------------------------------------ bookkeeping
     def note_unmodelled(self, what):
@@ -129,9 +130,75 @@ class Interp:
         a = ATOMS.fresh(name, lo, hi, defn=defn, key=key)
         return ('int', Lin.atom(a))
 
+    def rename_atom(self, w, a):
+        """the keyed atom `a` is about to denote a new value in world w: whatever w still says about
+        the old value is transferred to a fresh atom"""
+        A = Lin.atom(a)
+        used = any(c.coef(a) for c in w.store.cons)
+        if not used:
+            used = any(self._mentions(v, a) for v in w.mem.values())
+        if not used:
+            return
+        inf = ATOMS.info(a)
+        b = ATOMS.fresh(inf.name + "'", inf.lo, inf.hi, defn=inf.defn)
+        B = Lin.atom(b)
+        w.store = Store(frozenset(c.subst(a, B) for c in w.store.cons))
+        for root, v in list(w.mem.items()):
+            if self._mentions(v, a):
+                w.mem[root] = self._subst_value(v, a, B)
+
+    def _mentions(self, v, a):
+        t = v[0]
+        if t == 'int':
+            return bool(v[1].coef(a))
+        if t in ('slice', 'iter'):
+            return bool(v[2].coef(a) or v[3].coef(a))
+        if t == 'agg':
+            return any(self._mentions(x, a) for x in v[1])
+        if t == 'enum':
+            return any(self._mentions(x, a) for _, fs in v[1] for x in fs)
+        if t == 'seq':
+            return bool(v[1].coef(a)) or any(self._mentions(cv, a) or ci.coef(a) for ci, cv in v[3])
+        if t == 'bool':
+            return a in self._form_atoms(v[1])
+        return False
+
+    def _form_atoms(self, f):
+        if f[0] == 'cmp':
+            return set(f[2].atoms()) | set(f[3].atoms())
+        if f[0] == 'not':
+            return self._form_atoms(f[1])
+        if f[0] == 'and':
+            return self._form_atoms(f[1]) | self._form_atoms(f[2])
+        if f[0] == 'ovf':
+            return set(f[1].atoms())
+        return set()
+
+    def _subst_value(self, v, a, B):
+        t = v[0]
+        if t == 'int':
+            return ('int', v[1].subst(a, B))
+        if t == 'slice':
+            return ('slice', v[1], v[2].subst(a, B), v[3].subst(a, B))
+        if t == 'iter':
+            return ('iter', v[1], v[2].subst(a, B), v[3].subst(a, B))
+        if t == 'agg':
+            return ('agg', tuple(self._subst_value(x, a, B) for x in v[1]))
+        if t == 'enum':
+            return ('enum', tuple((k, tuple(self._subst_value(x, a, B) for x in fs)) for k, fs in v[1]))
+        if t == 'seq':
+            return ('seq', v[1].subst(a, B), v[2], tuple((ci.subst(a, B), self._subst_value(cv, a, B)) for ci, cv in v[3]), v[4], v[5])
+        if t == 'bool':
+            return ('bool', ('opq', ('renamed', Obj.fresh())))
+        return v
+
     def new_seq(self, w, elem_ty, name, tag, length=None, cap=None):
         """allocate a sequence object (bytes / cells); returns root"""
         root = ('O', Obj.fresh())
+        if self._keyctx is not None:
+            kroot = ('O', ('mat', self._keyctx, name))
+            if kroot not in w.mem:
+                root = kroot
         if length is None:
             a = ATOMS.fresh(f"len({name})", 0, ISIZE_MAX)
             length = Lin.atom(a)
@@ -145,6 +212,10 @@ class Interp:
         if k == 'int':
             return self.fresh_int(w, ty, name)
         if k == 'bool':
+            if self._keyctx is not None:
+                bk = ('mat', self._keyctx, name)
+                w.facts.pop(bk, None)
+                return ('bool', ('opq', bk))
             return ('bool', ('opq', ('mat', Obj.fresh(), name)))
         if k == 'tuple':
             if not ty['of']:
@@ -164,6 +235,8 @@ class Interp:
         if k == 'array':
             n = ty['len']
             if ty['of']['k'] == 'int':
+                if self._keyctx is not None:
+                    return ('arr', n, ('unknown', ('mat', self._keyctx), name))
                 return ('arr', n, ('unknown', Obj.fresh(), name))
             return ('top', reg_ty(ty), origin, name)
         if k == 'adt':
@@ -202,8 +275,17 @@ class Interp:
         m = self.materialize(w, ty, v[3] if len(v) > 3 else '?', v[2])
         return v if m is None else m
 
-    def deep_expand(self, w, v, depth=6):
-        """expand unknowns eagerly so that every world forked later shares the same atoms"""
+    def deep_expand(self, w, v, depth=6, keyed=None):
+        """expand unknowns eagerly so that every world forked later shares the same atoms; with
+        `keyed` the atoms / objects are named after the call site so that worlds which execute the
+        same call separately still agree on the names (old occurrences are renamed first)"""
+        if keyed is not None:
+            prev = self._keyctx
+            self._keyctx = keyed
+            try:
+                return self.deep_expand(w, v, depth)
+            finally:
+                self._keyctx = prev
         if depth <= 0:
             return v
         v = self.expand(w, v)
